@@ -6,7 +6,7 @@ from ..kfun import Ev, P, calls_in, contains, eval_function, is_call_to, paths, 
 from ..model import AnalysisError, norm_text
 from ..regs import class_mro
 from ..ruleir import leaves
-from ..terms import children, walk
+from ..terms import T, children, walk
 from ..tutil import atom, cases, expand, specialise, unseq
 from .common import loc_of
 
@@ -141,13 +141,32 @@ def wrapper(ctx, world):
             return t.args[0]
         return t
 
+    def column(t):
+        """i if t is column i of boxed_args written as zip(*boxed_args)[i], else None"""
+        if t.op == "sub" and t.idx.op == "const" and t.idx.value in (0, 1) and is_call_to(t.obj, "builtins.zip") and len(t.obj.args) == 1 and t.obj.args[0].op == "star" and is_boxed(t.obj.args[0].x):
+            return t.idx.value
+        return None
+
     def over_boxed(t, elt_pred):
-        """t enumerates elt_pred(argnum-term, box-term) for (argnum, box) in boxed_args, in order, unfiltered"""
+        """t enumerates elt_pred(argnum-term, box-term) for (argnum, box) in boxed_args, in order, unfiltered;
+        the pairs may be taken from boxed_args itself or from one of its columns zip(*boxed_args)[i]"""
+        never = lambda x: False
+        col = column(t)
+        if col is not None:
+            # the bare column: elements are argnum (0) / box (1) themselves
+            probe = T("sym", name="elem", role="param")
+            return elt_pred(probe, (lambda x: x is probe) if col == 0 else never, (lambda x: x is probe) if col == 1 else never)
         c = unwrap_seq(t)
-        if c.op != "comp" or c.conds or c.kind in ("SetComp", "DictComp") or not is_boxed(c.src):
+        if c.op != "comp" or c.conds or c.kind in ("SetComp", "DictComp"):
             return False
-        is_el = lambda x, i: x.op == "sub" and x.obj.op == "iterelem" and x.obj.src is c.src and x.idx.op == "const" and x.idx.value == i
-        return elt_pred(c.elt, lambda x: is_el(x, 0), lambda x: is_el(x, 1))
+        if is_boxed(c.src):
+            is_el = lambda x, i: x.op == "sub" and x.obj.op == "iterelem" and x.obj.src is c.src and x.idx.op == "const" and x.idx.value == i
+            return elt_pred(c.elt, lambda x: is_el(x, 0), lambda x: is_el(x, 1))
+        col = column(c.src)
+        if col is None:
+            return False
+        is_it = lambda x: x.op == "iterelem" and x.src is c.src
+        return elt_pred(c.elt, is_it if col == 0 else never, is_it if col == 1 else never)
 
     def is_argvals(t):
         if not (is_call_to(t, "autograd.util.subvals") and len(t.args) == 2 and not t.kw and t.args[0] is args):
@@ -265,6 +284,12 @@ def notrace_wrapper(ctx, world):
             return is_call_to(t, "autograd.tracer.getval") and len(t.args) == 1 and _attr_of(t.args[0], "_value") and t.args[0].obj is x
         ok = bool(cs) and all((c.pol(is_test) is True and rec_ok(c.leaf)) or (c.pol(is_test) is False and c.leaf is x) for c in cs)
         ok = ok and any(c.pol(is_test) is True for c in cs) and any(c.pol(is_test) is False for c in cs)
+        if not ok and len(cs) == 1 and cs[0].leaf.op == "loop" and not cs[0].facts:
+            # iterative form: while isbox(x): x = x._value; return x
+            lp = cs[0].leaf
+            me = lambda t: t.op == "loopvar" and t.name == lp.name and t.node is lp.node
+            cnd = lp.get("cond")
+            ok = lp.get("it") is None and lp.init is x and cnd is not None and is_call_to(cnd, "autograd.tracer.isbox") and len(cnd.args) == 1 and me(cnd.args[0]) and _attr_of(lp.next, "_value") and me(lp.next.obj)
     if ok:
         ctx.ob("A13.unbox", "getval strips boxes recursively", True, loc_of(tm, gv))
     else:
